@@ -410,3 +410,11 @@ Print Assumptions C08_decision_is_translation_of_source.
 Theorem C08_apply_is_translation_of_source : TieBisyncApply.bisync_apply_is_translation.
 Proof. exact TieBisyncApply.bisync_apply_is_translation_holds. Qed.
 Print Assumptions C08_apply_is_translation_of_source.
+
+(** The four steps of one copy in the crash model ([copy_steps]: stage, data, fsync of the staging file, rename) are the
+    file-system calls of bidir.rs `copy_atomic` as the source has them now, in that order and on those files
+    (Gen/BisyncSysGen.v, Proofs/TieBisyncSys.v). *)
+Require Copia.Proofs.TieBisyncSys.
+Theorem C08_copy_steps_are_translation_of_source : TieBisyncSys.copy_atomic_is_translation.
+Proof. exact TieBisyncSys.copy_atomic_is_translation_holds. Qed.
+Print Assumptions C08_copy_steps_are_translation_of_source.
